@@ -82,7 +82,7 @@ PureNames == TypePreds \cup Arith \cup
   {"=", "list", "vector", "cons", "concat", "vec", "nth", "first", "rest", "count", "empty?",
    "conj", "seq", "take", "take-last", "drop", "drop-last", "subvec", "range", "hash-map",
    "assoc", "dissoc", "get", "contains?", "keys", "vals", "merge", "rename-keys", "get-in",
-   "assoc-in", "set", "hash-set", "symbol", "keyword", "pr-str", "str", "read-string"}
+   "assoc-in", "set", "hash-set", "symbol", "keyword", "pr-str", "str", "read-string", "with-meta", "meta"}
 
 RECURSIVE HasUnorderedInside(_)
 \* printing a value with a multi-entry map or set inside has no specified text
@@ -269,6 +269,11 @@ Pure(name, a) ==
                           ELSE OV(StrV(Join([k \in 1..n |-> PrStr(a[k])], " ")))
     [] name = "str" -> IF \E k \in 1..n : HasUnorderedInside(a[k]) THEN OX
                        ELSE OV(StrV(Join([k \in 1..n |-> StrPlain(a[k])], "")))
+    \* metadata is not part of a value (equality and printing ignore it): with-meta returns
+    \* its argument as a value; what meta returns is left to a later extension of the model
+    [] name = "with-meta" -> IF n # 2 THEN OE
+                             ELSE IF a[1].t \in {"list", "vec", "map", "set", "fn", "bfn"} THEN OV(a[1]) ELSE OE
+    [] name = "meta" -> OX
     [] name = "read-string" -> IF n # 1 THEN OE
                                ELSE IF a[1].t # "str" THEN OE
                                ELSE LET r == Read(a[1].s) IN
